@@ -87,6 +87,45 @@ def run_property(pid, tier='quick', only=None, repo_root=None, quiet=False, writ
     return code, ctx, violations, known_matched, error
 
 
+def run_all_once(repo_root=None):
+    """development helper: parse once, run every distinct rule once, map the (unknown) violations back to the
+    properties that claim the rule.  Returns (flagged: {pid: [rules]}, refused: {pid: text})"""
+    from droopsa.props import PROPS
+    from droopsa.model import Repo
+    ctx = report.Ctx(Repo(repo_root) if repo_root else None)
+    known = report.load_known()
+    done = {}
+    for pid in sorted(PROPS):
+        for rid, fn in PROPS[pid]['rules']:
+            if fn in done:
+                continue
+            before = len(ctx.obligations)
+            err = None
+            try:
+                fn(ctx)
+            except AnalysisError as e:
+                err = str(e)
+            except Exception as e:
+                err = 'checker exception: %r' % e
+            done[fn] = ([o for o in ctx.obligations[before:] if not o.ok], err)
+    floor_fail = list(ctx.floor_failures)
+    flagged, refused = {}, {}
+    for pid in sorted(PROPS):
+        for rid, fn in PROPS[pid]['rules']:
+            bad, err = done[fn]
+            vs = [o for o in bad if report.match_known(o, pid, known) is None]
+            if vs:
+                flagged.setdefault(pid, set()).update(o.rule for o in vs)
+            if err:
+                refused[pid] = err[:160]
+        if pid not in flagged and pid not in refused and floor_fail:
+            rules_of = set(r for r, _ in PROPS[pid]['rules'])
+            ff = [x for x in floor_fail if x.split(':')[0] in rules_of]
+            if ff:
+                refused[pid] = ff[0][:160]
+    return {k: sorted(v) for k, v in flagged.items()}, refused
+
+
 def main(argv):
     if not argv:
         print(__doc__)
